@@ -261,6 +261,51 @@ func c18Drive(args []string) int {
 			}
 		}
 	}
+	// JSON documents that end at (or next to) a buffer edge of the declared-encoding path, with data after the top-level
+	// value: how the run ends is part of the result
+	{
+		js := minis["json"]
+		schU, err, p := newSchema(js.Schema)
+		if err != nil || p != "" {
+			fmt.Println("error: schema", js.Name, err, p)
+			return 3
+		}
+		for enc, table := range tables {
+			schE, err, p := newSchema(withEncoding(js.Schema, enc))
+			if err != nil || p != "" {
+				fmt.Println("error: schema", js.Name, enc, err, p)
+				return 3
+			}
+			for _, total := range []int{4095, 4096, 4097, 8191, 8192, 8193} {
+				for ti, trailer := range []string{` {"id": "z"}`, "\n7", " x", ""} {
+					var sb bytes.Buffer
+					sb.WriteString("[")
+					for k := 0; sb.Len() < total-200; k++ {
+						if k > 0 {
+							sb.WriteString(", ")
+						}
+						sb.WriteString(fmt.Sprintf(`{"id": "caf`))
+						sb.Write([]byte{0xE9, ' ', 0xFC})
+						sb.WriteString(fmt.Sprintf(`%d", "qty": %d}`, k, k))
+					}
+					for sb.Len() < total-1 {
+						sb.WriteString(" ")
+					}
+					sb.WriteString("]")
+					sb.WriteString(trailer)
+					in := sb.Bytes()
+					fam++
+					g := transcriptOf(schU, bytes.NewReader(toUTF8(table, in)), 100000)
+					events = append(events, M{"ev": "golden", "tr": fam, "item": "json ending at a buffer edge", "results": fpAll(g, "classout"), "desc": "converted to utf-8"})
+					v := transcriptOf(schE, bytes.NewReader(in), 100000)
+					events = append(events, M{"ev": "same", "tr": fam, "item": "json ending at a buffer edge", "results": fpAll(v, "classout"),
+						"desc": fmt.Sprintf("declared %s, top-level value of %d bytes, trailer no. %d", enc, total, ti), "enc": enc})
+					sum.Traces++
+					sum.eval(true, M{"f": "json-edge", "e": enc, "n": total, "t": ti})
+				}
+			}
+		}
+	}
 	mustWriteNDJSON(args[1], events)
 	sum.done()
 	return 0
